@@ -203,7 +203,7 @@ pub(crate) mod kfmt_rec {
     pub struct W<'a, T>(pub &'a T);
     pub trait KInt { fn krec(&self); }
     pub trait KOther { fn krec(&self); }
-    macro_rules! kint { ($($t:ty),*) => { $( impl KInt for W<'_, $t> { fn krec(&self) { rec_int(*self.0 as i128) } } )* } }
+    macro_rules! kint { ($($t:ty),*) => { $( impl KInt for W<'_, $t> { fn krec(&self) { rec_int(*self.0 as i128) } } impl KInt for W<'_, &$t> { fn krec(&self) { rec_int(**self.0 as i128) } } )* } }
     kint!(u8, u16, u32, u64, usize, i8, i16, i32, i64, isize);
     impl KInt for W<'_, char> { fn krec(&self) { rec_int(*self.0 as u32 as i128) } }
     // a string argument is recorded as its length and its first byte (enough for the one-letter flags the encoder passes)
